@@ -308,6 +308,15 @@ def run(pid, tier, seed=0, jobs=None, only=None, verbose=False):
             res['by_name'][e['name']] = e
             {'proved': res['proved'], 'refuted': res['refuted'], 'unknown': res['unknown']}[st].append(e)
         res['n_ob'] = len(res['by_name'])
+    if pid in ('C04', 'C03', 'C16'):
+        from pyvc.audit_sorted import run_audit as audit_sorted
+        for s_ in audit_sorted(_REPO):
+            st = {'ok': 'proved', 'violation': 'refuted', 'undecided': 'unknown'}[s_['verdict']]
+            e = dict(name='audit/' + s_['name'], kind='audit', clause=s_['detail'], instances=1, status=st,
+                     backends={'ast-audit'}, fn='pyvc.audit_sorted', model=s_['detail'], max_size=0)
+            res['by_name'][e['name']] = e
+            {'proved': res['proved'], 'refuted': res['refuted'], 'unknown': res['unknown']}[st].append(e)
+        res['n_ob'] = len(res['by_name'])
     if pid in CLOSED_TERM_PROPS:
         import subprocess
         os.makedirs(os.path.join(VERIF, 'replays', pid), exist_ok=True)
